@@ -20,6 +20,52 @@ def u32Head : Bytes → Nat
   | w :: x :: y :: z :: _ => fromBe32 w x y z
   | _ => 0
 
+/-- `Choke::check` and its three siblings: the frame is the five header bytes. -/
+def parseFixed (m : Msg) (want length : Nat) : ParseOut :=
+  if length = want then .frame m (MSG_LEN_SIZE + want) else .fatal
+
+/-- `Have::check`, `Request::check`, `Cancel::check`: fixed length, body must have arrived. -/
+def parseSized (m : Msg) (want length avail : Nat) : ParseOut :=
+  if length ≠ want then .fatal
+  else if avail < MSG_LEN_SIZE + length then .incomplete
+  else .frame m (MSG_LEN_SIZE + want)
+
+/-- `Bitfield::check` (`minLen = 1`), `Piece::check` (`minLen = 9`): variable length. -/
+def parseVar (m : Msg) (minLen length avail : Nat) : ParseOut :=
+  if length < minLen then .fatal
+  else if avail < MSG_LEN_SIZE + length then .incomplete
+  else .frame m (MSG_LEN_SIZE + length)
+
+/-- `Handshake::check` / `Handshake::from` (reached only when byte 0 is 19 and byte 4 is `'T'`). -/
+def parseHandshake (buf : Bytes) (avail : Nat) : ParseOut :=
+  if avail < HANDSHAKE_FULL_SIZE then .incomplete
+  else if (buf.drop 1).take HANDSHAKE_PROTOCOL_ID.length = HANDSHAKE_PROTOCOL_ID then
+    let s := 1 + HANDSHAKE_PROTOCOL_ID.length + HANDSHAKE_RESERVED_SIZE
+    .frame (.handshake ((buf.drop s).take HASH_SIZE) ((buf.drop (s + HASH_SIZE)).take PEER_ID_SIZE))
+      HANDSHAKE_FULL_SIZE
+  else .fatal
+
+/-- Unknown id: skipped once its whole body is available. -/
+def parseUnknown (length avail : Nat) : ParseOut :=
+  if avail < MSG_LEN_SIZE + length then .incomplete else .skip (MSG_LEN_SIZE + length)
+
+/-- The `match FromPrimitive::from_u8(msg_id)` of `Frame::parse` for the nine ordinary ids. -/
+def parseById (id length avail : Nat) (body : Bytes) : ParseOut :=
+  if id = CHOKE_ID then parseFixed .choke CHOKE_LEN length
+  else if id = UNCHOKE_ID then parseFixed .unchoke UNCHOKE_LEN length
+  else if id = INTERESTED_ID then parseFixed .interested INTERESTED_LEN length
+  else if id = NOT_INTERESTED_ID then parseFixed .notInterested NOT_INTERESTED_LEN length
+  else if id = HAVE_ID then parseSized (.haveP (u32Head body)) HAVE_LEN length avail
+  else if id = BITFIELD_ID then parseVar (.bitfield (body.take (length - MSG_ID_SIZE))) MSG_ID_SIZE length avail
+  else if id = REQUEST_ID then
+    parseSized (.request (u32Head body) (u32Head (body.drop 4)) (u32Head (body.drop 8))) REQUEST_LEN length avail
+  else if id = PIECE_ID then
+    parseVar (.piece (u32Head body) (u32Head (body.drop 4)) ((body.drop 8).take (length - PIECE_MIN_LEN)))
+      PIECE_MIN_LEN length avail
+  else if id = CANCEL_ID then
+    parseSized (.cancel (u32Head body) (u32Head (body.drop 4)) (u32Head (body.drop 8))) CANCEL_LEN length avail
+  else parseUnknown length avail
+
 /-- `Frame::parse` after the length prefix has been read: `a` is the first byte of the buffer
     (`get_protocol_id_length`), `length` the decoded prefix, `buf` the whole buffer, `tl` what follows
     the prefix. -/
@@ -28,51 +74,11 @@ def parseBody (a : UInt8) (length : Nat) (buf tl : Bytes) : ParseOut :=
   match tl with
   | [] => .incomplete                       -- get_message_id
   | idb :: body =>
-    let id := idb.toNat
     let avail := MSG_LEN_SIZE + MSG_ID_SIZE + body.length
-    let isHandshake := id = HANDSHAKE_ID_FROM_PROTOCOL ∧ a.toNat = HANDSHAKE_PROTOCOL_ID.length
-    if ¬ isHandshake ∧ length > MAX_FRAME_SIZE then .fatal else
-    if isHandshake then
-      -- Handshake::check / Handshake::from
-      if avail < HANDSHAKE_FULL_SIZE then .incomplete
-      else if (buf.drop 1).take HANDSHAKE_PROTOCOL_ID.length = HANDSHAKE_PROTOCOL_ID then
-        let s := 1 + HANDSHAKE_PROTOCOL_ID.length + HANDSHAKE_RESERVED_SIZE
-        .frame (.handshake ((buf.drop s).take HASH_SIZE) ((buf.drop (s + HASH_SIZE)).take PEER_ID_SIZE))
-          HANDSHAKE_FULL_SIZE
-      else .fatal
-    else if id = CHOKE_ID then
-      if length = CHOKE_LEN then .frame .choke (MSG_LEN_SIZE + CHOKE_LEN) else .fatal
-    else if id = UNCHOKE_ID then
-      if length = UNCHOKE_LEN then .frame .unchoke (MSG_LEN_SIZE + UNCHOKE_LEN) else .fatal
-    else if id = INTERESTED_ID then
-      if length = INTERESTED_LEN then .frame .interested (MSG_LEN_SIZE + INTERESTED_LEN) else .fatal
-    else if id = NOT_INTERESTED_ID then
-      if length = NOT_INTERESTED_LEN then .frame .notInterested (MSG_LEN_SIZE + NOT_INTERESTED_LEN) else .fatal
-    else if id = HAVE_ID then
-      if length ≠ HAVE_LEN then .fatal
-      else if avail < MSG_LEN_SIZE + length then .incomplete
-      else .frame (.haveP (u32Head body)) (MSG_LEN_SIZE + HAVE_LEN)
-    else if id = BITFIELD_ID then
-      if avail < MSG_LEN_SIZE + length then .incomplete
-      else .frame (.bitfield (body.take (length - MSG_ID_SIZE))) (MSG_LEN_SIZE + length)
-    else if id = REQUEST_ID then
-      if length ≠ REQUEST_LEN then .fatal
-      else if avail < MSG_LEN_SIZE + length then .incomplete
-      else .frame (.request (u32Head body) (u32Head (body.drop 4)) (u32Head (body.drop 8)))
-        (MSG_LEN_SIZE + REQUEST_LEN)
-    else if id = PIECE_ID then
-      if length < PIECE_MIN_LEN then .fatal
-      else if avail < MSG_LEN_SIZE + length then .incomplete
-      else .frame (.piece (u32Head body) (u32Head (body.drop 4)) ((body.drop 8).take (length - PIECE_MIN_LEN)))
-        (MSG_LEN_SIZE + length)
-    else if id = CANCEL_ID then
-      if length ≠ CANCEL_LEN then .fatal
-      else if avail < MSG_LEN_SIZE + length then .incomplete
-      else .frame (.cancel (u32Head body) (u32Head (body.drop 4)) (u32Head (body.drop 8)))
-        (MSG_LEN_SIZE + CANCEL_LEN)
-    else
-      -- unknown id: skipped once its whole body is available
-      if avail < MSG_LEN_SIZE + length then .incomplete else .skip (MSG_LEN_SIZE + length)
+    if idb.toNat = HANDSHAKE_ID_FROM_PROTOCOL ∧ a.toNat = HANDSHAKE_PROTOCOL_ID.length then
+      parseHandshake buf avail
+    else if length > MAX_FRAME_SIZE then .fatal
+    else parseById idb.toNat length avail body
 
 /-- `Frame::parse` on a buffer (cursor at 0): `get_message_length`, then the rest. -/
 def parseImpl (buf : Bytes) : ParseOut :=
